@@ -16,6 +16,18 @@ from .c02 import to_ref
 from .c03 import offsets_of
 
 
+_OTHER = {
+    "someip": hdr.SOMEIPHeader(service_id=0x4321, method_id=1, client_id=2, session_id=3, interface_version=4,
+                               message_type=hdr.SOMEIPMessageType.REQUEST, payload=b"other message"),
+    "sd": hdr.SOMEIPSDHeader(entries=(hdr.SOMEIPSDEntry(sd_type=hdr.SOMEIPSDEntryType.FindService, service_id=0x4321, instance_id=1,
+                                                        major_version=1, ttl=9, minver_or_counter=7),),
+                             flag_reboot=False).assign_option_indexes(),
+    "entry": hdr.SOMEIPSDEntry(sd_type=hdr.SOMEIPSDEntryType.FindService, service_id=0x4321, instance_id=1, major_version=1, ttl=9,
+                               minver_or_counter=7, option_index_1=0, option_index_2=0, num_options_1=0, num_options_2=0),
+    "option": hdr.SOMEIPSDLoadBalancingOption(priority=0x4321, weight=0x1234),
+}
+
+
 def cycle(level, parse, data, n_opts=None):
     """-> (accepted?, violations, ref_disagreement?)"""
     try:
@@ -27,9 +39,18 @@ def cycle(level, parse, data, n_opts=None):
     out = []
     consumed = bytes(data[:len(data) - len(rest)])
     try:
-        again = bytes(v.build())
+        raw = v.build()
+        again = bytes(raw)
+        # the encoding of one value is its own: encoding further values (this one again, another one of the same kind)
+        # must not change what was returned before
+        v.build()
+        _OTHER[level].build()
+        stable = bytes(raw) == again
     except Exception as e:  # noqa: BLE001
         return True, [("re-encode", f"{level}-raises-{type(e).__name__}", f"{level}: decoded value cannot be encoded again: {e}")], False
+    if not stable:
+        out.append(("re-encode", f"{level}-encoding-changed-by-a-later-encode", f"{level}: the object returned by build() changed when "
+                    "another value was encoded"))
     try:
         v2, rest2 = parse(again)
     except Exception as e:  # noqa: BLE001
@@ -182,6 +203,11 @@ def part_generated(args):
         for a4 in v4s:
             body = b"\x00" + ipaddress.IPv4Address(a4).packed + bytes([0, 6]) + refcodec.tobe(30490, 2)
             run("option", hdr.SOMEIPSDOption.parse, refcodec.tobe(9, 2) + bytes([typ]) + body, f"IPv4 option type {typ:#x} address {a4}")
+    # configuration options with two items, the second of every length 1..255 (its length byte is an arbitrary byte)
+    for ln in range(1, 256):
+        for first in (b"key", b"k=v", b"k="):
+            body = b"\x00" + bytes([len(first)]) + first + bytes([ln]) + b"x" * ln + b"\x00"
+            run("option", hdr.SOMEIPSDOption.parse, refcodec.tobe(len(body), 2) + b"\x01" + body, f"config option {first!r} + item of length {ln}")
     # configuration options: garbage after the terminator, odd strings
     for items, tail in itertools.product(
             ((), (b"k",), (b"k=v",), (b"=v",), (b"k=",), (b"a=b=c", b"x"), (b"\x01\x02",), (b"=",), (b"==",),
@@ -263,7 +289,7 @@ def check(ctx):
     samples.add(dict(seed="sd-subscribe-cfg", mutation="byte@22=0x3", level="sd"), "accepted mutated input")
     cov = dict(
         evaluations=n, distinct_nontrivial=acc, exhaustive=True,
-        rule="decoder calls over (1-mutation neighbourhood of 12 seeds) x (4 decoder levels at seed offsets and offset 0) "
+        rule="decoder calls over (1-mutation neighbourhood of 14 seeds) x (4 decoder levels at seed offsets and offset 0) "
              "plus generated inputs (256 option types x 6 lengths, 256 protocol numbers, 256 flag bytes, configuration "
              "strings with garbage, 6 permutations x 49 run pairs x 3 zero-run indexes of a 3-option array, unreferenced "
              "and duplicated options, 110 type/code combinations); non-trivial = inputs the library accepted "
